@@ -28,3 +28,4 @@ META = dict(
          "unit-hydrograph buffer and InstreamDissolvedNutrientDecay prevVolume are not part of the state vector.",
     technique="Lean 4 proof (scan over a concatenation) + split-run differential correspondence",
 )
+READY = True
